@@ -64,7 +64,6 @@ harness! {
 harness! {
     /// kind=complete tier=quick bound="every char: decode(encode(c)) == c through Chars/RChars/CharIndices/RCharIndices next and next_back; loops bounded by the 4 UTF-8 bytes"
     #[kani::unwind(6)]
-    #[kani::stub(konst_kernel::string::non_char_boundary_panic, crate::hlib::stub_non_char_boundary_panic)]
     fn c07_decode_encode_id(s) {
         let c = s.char();
         // input built by std's encoder only
@@ -221,56 +220,48 @@ fn body_rchar_indices<S: Src, const CAP: usize, const STEPS: usize>(s: &mut S) {
 harness! {
     /// kind=bounded tier=quick bound="valid UTF-8 string<=5 bytes, every front/back history of 4 steps of Chars from the fresh iterator"
     #[kani::unwind(8)]
-    #[kani::stub(konst_kernel::string::non_char_boundary_panic, crate::hlib::stub_non_char_boundary_panic)]
     fn c07_chars_steps(s) { body_chars::<_, 5, 4>(s) }
 }
 
 harness! {
     /// kind=bounded tier=quick bound="valid UTF-8 string<=5 bytes, every front/back history of 4 steps of RChars (chars().rev()) against Rev<Chars> from the fresh iterator"
     #[kani::unwind(8)]
-    #[kani::stub(konst_kernel::string::non_char_boundary_panic, crate::hlib::stub_non_char_boundary_panic)]
     fn c07_rchars_steps(s) { body_rchars::<_, 5, 4>(s) }
 }
 
 harness! {
     /// kind=bounded tier=quick bound="valid UTF-8 string<=5 bytes, every front/back history of 4 steps of CharIndices from the fresh iterator"
     #[kani::unwind(8)]
-    #[kani::stub(konst_kernel::string::non_char_boundary_panic, crate::hlib::stub_non_char_boundary_panic)]
     fn c07_char_indices_steps(s) { body_char_indices::<_, 5, 4>(s) }
 }
 
 harness! {
     /// kind=bounded tier=quick bound="valid UTF-8 string<=5 bytes, every front/back history of 4 steps of RCharIndices (char_indices().rev()) against Rev<CharIndices> from the fresh iterator"
     #[kani::unwind(8)]
-    #[kani::stub(konst_kernel::string::non_char_boundary_panic, crate::hlib::stub_non_char_boundary_panic)]
     fn c07_rchar_indices_steps(s) { body_rchar_indices::<_, 5, 4>(s) }
 }
 
 harness! {
     /// kind=bounded tier=thorough bound="valid UTF-8 string<=8 bytes, every front/back history of 6 steps of Chars from the fresh iterator"
     #[kani::unwind(10)]
-    #[kani::stub(konst_kernel::string::non_char_boundary_panic, crate::hlib::stub_non_char_boundary_panic)]
     fn c07_chars_steps_big(s) { body_chars::<_, 8, 6>(s) }
 }
 
 harness! {
     /// kind=bounded tier=thorough bound="valid UTF-8 string<=8 bytes, every front/back history of 6 steps of RChars (chars().rev()) against Rev<Chars> from the fresh iterator"
     #[kani::unwind(10)]
-    #[kani::stub(konst_kernel::string::non_char_boundary_panic, crate::hlib::stub_non_char_boundary_panic)]
     fn c07_rchars_steps_big(s) { body_rchars::<_, 8, 6>(s) }
 }
 
 harness! {
     /// kind=bounded tier=thorough bound="valid UTF-8 string<=8 bytes, every front/back history of 6 steps of CharIndices from the fresh iterator"
     #[kani::unwind(10)]
-    #[kani::stub(konst_kernel::string::non_char_boundary_panic, crate::hlib::stub_non_char_boundary_panic)]
     fn c07_char_indices_steps_big(s) { body_char_indices::<_, 8, 6>(s) }
 }
 
 harness! {
     /// kind=bounded tier=thorough bound="valid UTF-8 string<=8 bytes, every front/back history of 6 steps of RCharIndices (char_indices().rev()) against Rev<CharIndices> from the fresh iterator"
     #[kani::unwind(10)]
-    #[kani::stub(konst_kernel::string::non_char_boundary_panic, crate::hlib::stub_non_char_boundary_panic)]
     fn c07_rchar_indices_steps_big(s) { body_rchar_indices::<_, 8, 6>(s) }
 }
 
